@@ -15,6 +15,10 @@ def main():
         if "proof=BROKEN" in " ".join(c.get("output") or []):
             how += " + broken proof obligation (regenerated table)"
         hist = " " + m["history"] if m.get("history") else ""
+        if m.get("retired"):
+            rows.append(f"| {m['id']} | {m['change']} | {m['needs_to_manifest']} | retired: caught before the repair of the F10 family; "
+                        f"its demonstration no longer fails on the repaired tree.{hist} |")
+            continue
         rows.append(f"| {m['id']} | {m['change']} | {m['needs_to_manifest']} | {'caught: ' + how if c['caught'] else 'MISSED'}.{hist} |")
     txt = """
 ### 10.4 Seeded changes (written by fresh sub-agents from the property text alone) and which check catches them
